@@ -17,6 +17,12 @@ class ClientBoom(Exception):
     pass
 
 
+class ClientCancelled(BaseException):
+    """What a cancelled / interrupted client call raises (asyncio.CancelledError, gevent.Timeout, SystemExit...): not an
+    Exception.  The checkpoint thread does not handle it; whatever else happens, nobody may be told that his record
+    was accepted."""
+
+
 def run_scenario(sc, schedule=None, seed=0, max_points=60000):
     sim = Sim(schedule=schedule, seed=seed, policy="pct" if (seed or 0) % 3 == 0 else "random", max_points=max_points, wall_limit=30, quiesce_limit=50.0 if not (sc.get("fault") or {}).get("kind") == "slow_raise" else 400.0)
     res = {}
@@ -37,6 +43,10 @@ def run_scenario(sc, schedule=None, seed=0, max_points=60000):
                 if fault and fault["at"] == k and fault["kind"] == "slow_raise":
                     # the call stays in flight for a long (virtual) time and is then refused
                     sim.block_until(lambda: False, 150.0)
+                if fault and fault["at"] == k and fault["kind"] == "base_raise":
+                    calls.append((checkpoint_token, ids, "raise"))
+                    sim.log("api.fail", None)
+                    raise ClientCancelled(f"call {k} cancelled")
                 if fault and fault["at"] == k and fault["kind"] in ("raise", "slow_raise"):
                     calls.append((checkpoint_token, ids, "raise"))
                     sim.log("api.fail", None)
@@ -339,6 +349,18 @@ def oracles(ctx, prop, sc, res, component):
     else:
         # after the failure every later caller fails; nobody reports success for an undelivered update (checked above)
         pass
+
+
+def write_ahead_only(ctx, sc, res, component):
+    """For faults outside the batcher model (a BaseException from the client): only the write-ahead statement - a
+    synchronous caller that returned normally has its update in an applied call.  (The thread dies on such a fault and
+    callers may stay blocked: liveness is claimed for Exceptions only, C06 META.)"""
+    case = {"scenario": sc, "decisions": res["decisions"]}
+    opid2i = {it["opid"]: i for i, it in res["items"].items()}
+    delivered = [opid2i[o] for tok, ids, outc in res["calls"] if outc in ("ok", "after_apply") for o in ids]
+    for i, o in res["outcomes"].items():
+        if o == "retOk" and not res["items"][i]["empty"] and res["items"][i]["sync"] and i not in delivered:
+            ctx.violate("C03.sync_returned_before_applied", case, {"item": i, "calls": res["calls"][:6]}, component, kind="schedule")
 
 
 def compare(ctx, sc, res, component):
